@@ -215,7 +215,7 @@ func registerSign(s sign.Scheme) {
 		Call: func(in []byte) Result { _, err := pki.UnmarshalPKIXPrivateKey(in); return Result{Accepted: err == nil} },
 	})
 	Register(&Entry{
-		Name: "pki[" + s.Name() + "].UnmarshalPEMPublicKey", Cost: cost, Seeds: 2,
+		Name: "pki[" + s.Name() + "].UnmarshalPEMPublicKey", Cost: cost, Seeds: 2, Text: true,
 		Valid: func(seed uint64) []byte {
 			pk, _ := keys(seed)
 			b, err := pki.MarshalPEMPublicKey(pk)
@@ -227,7 +227,7 @@ func registerSign(s sign.Scheme) {
 		Call: func(in []byte) Result { _, err := pki.UnmarshalPEMPublicKey(in); return Result{Accepted: err == nil} },
 	})
 	Register(&Entry{
-		Name: "pki[" + s.Name() + "].UnmarshalPEMPrivateKey", Cost: cost, Seeds: 2,
+		Name: "pki[" + s.Name() + "].UnmarshalPEMPrivateKey", Cost: cost, Seeds: 2, Text: true,
 		Valid: func(seed uint64) []byte {
 			_, sk := keys(seed)
 			b, err := pki.MarshalPEMPrivateKey(sk)
